@@ -24,7 +24,7 @@ ASSUMPTIONS = [
     'create obligations to complete / fail; safety (no completion without an own UPLOADED, no failure without an own FAILED, at most one outcome, '
     'subscription removed afterwards) is checked for every ordering',
 ]
-BOUNDS = {'quick': {'events': 3, 'directories': 2, 'services': 'own + one foreign sharing the directories', 'modes': 'first-upload and await-all'},
+BOUNDS = {'quick': {'events': '3 (own + foreign, any reply position); 5 (own only, reply first)', 'directories': 2, 'services': 'own + one foreign sharing the directories', 'modes': 'first-upload and await-all'},
           'thorough': {'events': 4, 'directories': 3}}
 OUTSIDE = ['more than 4 events / 3 directories', 'authenticated services']
 
@@ -108,7 +108,7 @@ def _wait_inner(events, reply_at, await_all, ndirs, fs, hsdir):
         replied = False
         own_uploaded_ever = False
         own_failed_ever = False
-        att, conf, failed = set(), set(), set()      # own events after the reply
+        att, conf, failed, pend = set(), set(), set(), set()      # own events after the reply
         must = None       # 'complete' / 'fail'
         for i in range(len(events) + 1):
             if i == reply_at and not replied:
@@ -129,22 +129,24 @@ def _wait_inner(events, reply_at, await_all, ndirs, fs, hsdir):
             counts = replied or fs
             if known('C15-foreign-uploaded') and (not own) and kind == 1 and counts and dr in att:
                 assume(False)        # region of the listed known finding (re-checked by its witness)
-            if own and counts and must is None:
-                # obligations arise at the deciding events only; a fresh UPLOAD re-opens that directory
+            if own and counts:
+                # attempt-level bookkeeping: an UPLOAD opens an attempt on that directory (again, if Tor retries it), UPLOADED / FAILED settle it
                 if kind == 0:
                     att.add(dr)
-                    conf.discard(dr)
-                    failed.discard(dr)
+                    pend.add(dr)
                 elif kind == 1 and dr in att:
                     conf.add(dr)
-                    if not await_all or att <= (conf | failed):
+                    pend.discard(dr)
+                    if must is None and (not await_all or not pend):
                         must = 'complete'
                 elif kind == 2:
                     failed.add(dr)
-                    if att and att <= failed and not conf:
+                    pend.discard(dr)
+                    if must is None and att and not pend and not conf:
                         must = 'fail'
-                    elif await_all and conf and att and att <= (conf | failed):
+                    elif must is None and await_all and conf and att and not pend:
                         must = 'complete'
+            was_fired = o.fired
             p.lineReceived(('650 HS_DESC ' + _event_text(kind, own, dr)).encode('ascii'))
             tor.pump()
             # ---- monitors after every event
@@ -156,6 +158,9 @@ def _wait_inner(events, reply_at, await_all, ndirs, fs, hsdir):
                 return R('failed-without-any-failed-upload-of-this-service', 'events so far %r: %r', events[:i + 1], o.exc())
             if o.ok and not replied:
                 return R('completed-before-the-service-exists')
+            if o.ok and not was_fired and await_all and pend:
+                return R('await-all-completed-with-an-upload-still-outstanding', 'events %r reply_at %d: outstanding %r',
+                         events[:i + 1], reply_at, sorted(pend))
             if must == 'complete' and replied and o.ok != 1:
                 return R('not-completed-although-own-upload-confirmed', 'await_all=%s events %r reply_at %d: ok=%d err=%d', await_all, events[:i + 1], reply_at, o.ok, o.err)
             if must == 'fail' and (replied or not fs) and o.err != 1:
@@ -189,6 +194,20 @@ def c15_orderings3(e1: int, e2: int, e3: int, reply_at: int, await_all: bool, fs
     fs = True if fs else False
     with api.no_tracing():      # every choice is concrete by now
         return _wait(evs, reply_at, await_all, 2, fs)
+
+
+def _decode_own(e):
+    return (e % 3, True, e // 3)
+
+
+@cond(quick=dict(parts=[{'e1': a, 'await_all': m} for a in (0, 3) for m in (False, True)], budget=200))
+def c15_own5(e1: int, e2: int, e3: int, e4: int, e5: int, await_all: bool, fs: bool) -> str:
+    """5 events of the service itself over 2 directories (first one an UPLOAD), reply before all of them: retries after a failure,
+    several outstanding uploads, the deciding event being a FAILED"""
+    evs = [_decode_own(e1)] + [_decode_own(api.pick(e, 0, 5)) for e in (e2, e3, e4, e5)]
+    fs = True if fs else False
+    with api.no_tracing():
+        return _wait(evs, 0, await_all, 2, fs)
 
 
 @cond(thorough=dict(parts=[{'e1': a, 'e2': b, 'await_all': m} for a in range(18) for b in range(18) for m in (False, True)], budget=300))
